@@ -133,7 +133,7 @@ func mtimeAtoms(p provSet) []string {
 }
 
 func checkC07(c *Ctx, r *Report) {
-	r.Rules = []string{"T1 single clock gate", "T1 gate fed from configured/entry mtime", "T1 entry mtime defaulting", "T1 host-name gate", "T1 no other nondeterminism source", "T2 order-insensitive map iteration", "T4 no non-constant compressor header field", "T5 no goroutine", "fixture (positive examples)", "T6-no-carried-state no package-level variable is written on a packaging path", "T7-template-zone changelog templates of nfpm's own use no local-zone date function", "fresh-G4/G4-pool buffers under archive writers start empty (imported from C11)", "T1-gate-shape the clock gate reads the clock only after every configured time was found zero", "T2 (extended) first-one-wins skips inside map ranges"}
+	r.Rules = []string{"T1 single clock gate", "T1 gate fed from configured/entry mtime", "T1 entry mtime defaulting", "T1 host-name gate", "T1 no other nondeterminism source", "T2 order-insensitive map iteration", "T4 no non-constant compressor header field", "T5 no goroutine", "fixture (positive examples)", "T6-no-carried-state no package-level variable is written on a packaging path", "T7-template-zone changelog templates of nfpm's own use no local-zone date function", "fresh-G4/G4-pool buffers under archive writers start empty (imported from C11)", "T1-gate-shape the clock gate reads the clock only after every configured time was found zero", "T2 (extended) first-one-wins skips inside map ranges", "T1-defaults-kept the file info of an entry that went through the defaults is not replaced afterwards", "T1-env-default a time taken from the environment or the clock is stored into Info.MTime only where the configured one is zero"}
 	r.Explanation = "Who-may-call and effect rules over go/ssa on all non-test module code: the wall clock is read only inside internal/modtime.Get and every call of it passes the configured package mtime or the entry's mtime first (so a configured mtime makes the clock fallback dead); prepared entries get the package mtime when they have none; os.Hostname is reachable only when no build host is configured (decided by abstract evaluation with the field fixed); no other nondeterminism source (environment, math/rand, pid, cwd, CPU count, user) is called from packaging code outside the enumerated gates; every map iteration is order-insensitive by an enumerated idiom or sorted; compressor header fields get no non-constant value; module code starts no goroutine. Each zero-count rule is run against a positive fixture on every run. These are necessary conditions for reproducible output; byte equality of two runs is not computed."
 	r.Explanation += " (T6) no function on a packaging path writes a package-level variable, directly or through sync.Map: nothing computed for one build can reach the next build in the same process."
 	r.Explanation += " (T7-template-zone) a constant template text handed to the changelog renderer contains none of sprig's local-zone date functions. (fresh-G4) imported from C11."
@@ -253,7 +253,7 @@ func checkC07(c *Ctx, r *Report) {
 	// buffers under the archive writers start empty (rule of C11): a pooled
 	// buffer that can come back dirty makes a rebuild in the same process
 	// differ from a build in a fresh one
-	r.Floor("fresh-G4", importRules(c, r, checkC11, "fresh-", []string{"G4", "G4-pool"}, nil), 8)
+	r.Floor("fresh-G4", importRules(c, r, checkC11, "fresh-", []string{"G4", "G4-pool", "W3-shared-slice"}, nil), 8)
 	r.Floor("order-D6-plain", importRules(c, r, checkC05, "order-", []string{"D6-plain"}, nil), 1)
 
 	// ---- T1-fileinfo: headers are not built from a stat of the source ----
@@ -275,6 +275,8 @@ func checkC07(c *Ctx, r *Report) {
 
 	// ---- T6 no state carried from one build to the next ----
 	checkNoCarriedState(c, r, "T6-no-carried-state")
+	checkDefaultsKept(c, r)
+	checkEnvTimeOnlyDefault(c, r)
 	checkChangelogTemplates(c, r)
 
 	// ---- T1 SOURCE_DATE_EPOCH gate: no value-dependent handling ----
@@ -641,6 +643,60 @@ func checkNoCarriedState(c *Ctx, r *Report, rule string) {
 	for _, h := range scanSyncMapWrites(fns) {
 		report(h.Fn, h.In, h.Detail)
 	}
+	// a package-level byte buffer handed to a call is scratch space every
+	// build in the process writes through (io.CopyBuffer, Read): two builds
+	// at a time copy each other's bytes
+	for _, fn := range fns {
+		forEachInstr(fn, func(in ssa.Instruction) {
+			call, ok := in.(ssa.CallInstruction)
+			if !ok {
+				return
+			}
+			// the argument positions a callee writes through
+			writes := map[int]bool{}
+			if b, isB := call.Common().Value.(*ssa.Builtin); isB && b.Name() == "copy" {
+				writes[0] = true
+			} else if o := calleeObj(call); o != nil {
+				recv := 0
+				if sig, _ := o.Type().(*types.Signature); sig != nil && sig.Recv() != nil && !call.Common().IsInvoke() {
+					recv = 1
+				}
+				opk := ""
+				if o.Pkg() != nil {
+					opk = o.Pkg().Path()
+				}
+				switch opk + "." + o.Name() {
+				case "io.CopyBuffer":
+					writes[2] = true
+				case "io.ReadFull", "io.ReadAtLeast":
+					writes[1] = true
+				case "bytes.NewBuffer":
+					writes[0] = true
+				case "encoding/hex.Encode", "encoding/binary.PutUvarint", "encoding/binary.PutVarint":
+					writes[0] = true
+				}
+				switch o.Name() {
+				case "Read", "ReadAt", "Sum", "AppendFormat", "Encode", "PutUint16", "PutUint32", "PutUint64":
+					writes[recv] = true
+				}
+			}
+			for ai, a := range call.Common().Args {
+				if !writes[ai] {
+					continue
+				}
+				sl, isSl := a.Type().Underlying().(*types.Slice)
+				if !isSl {
+					continue
+				}
+				if b, isB := sl.Elem().Underlying().(*types.Basic); !isB || b.Kind() != types.Byte && b.Kind() != types.Uint8 {
+					continue
+				}
+				if g := rootGlobal(a); g != nil {
+					report(fn, in, "byte buffer "+globalName(g)+" handed to a call")
+				}
+			}
+		})
+	}
 	r.Count("packaging_path_functions", len(fns))
 	if n == 0 {
 		r.Pass(rule, fmt.Sprintf("no package-level write in %d function(s) on packaging paths", len(fns)), "-", "stores, map updates, deletes and sync.Map writes rooted in package-level variables: none")
@@ -760,4 +816,110 @@ func checkChangelogTemplates(c *Ctx, r *Report) {
 		})
 	}
 	r.Count("own_changelog_templates", n)
+}
+
+// checkDefaultsKept (T1-defaults-kept): the planner applies the package mtime
+// to an entry in WithFileInfoDefaults. An entry that has been through it keeps
+// that file info: a later wholesale replacement (a "cleaned" literal with owner
+// and group only) puts the zero time - or whatever the literal forgets - into
+// every archive.
+func checkDefaultsKept(c *Ctx, r *Report) {
+	n := 0
+	for _, fn := range c.ModFuncs {
+		if c.funcPkgPath(fn) != filesPath {
+			continue
+		}
+		k := 0
+		forEachInstr(fn, func(in ssa.Instruction) {
+			call, ok := in.(*ssa.Call)
+			if !ok {
+				return
+			}
+			sc := call.Call.StaticCallee()
+			if sc == nil || sc.Name() != "WithFileInfoDefaults" || !c.isModuleFunc(sc) {
+				return
+			}
+			n++
+			if call.Referrers() == nil {
+				return
+			}
+			for _, ref := range *call.Referrers() {
+				fa, ok := ref.(*ssa.FieldAddr)
+				if !ok || fieldName(fa.X.Type(), fa.Field) != "FileInfo" || fa.Referrers() == nil {
+					continue
+				}
+				for _, r2 := range *fa.Referrers() {
+					st, ok := r2.(*ssa.Store)
+					if !ok || st.Addr != ssa.Value(fa) {
+						continue
+					}
+					// a replacement that carries the time over is fine
+					keeps := false
+					if al, isAl := st.Val.(*ssa.Alloc); isAl && al.Referrers() != nil {
+						for _, r3 := range *al.Referrers() {
+							if f3, ok := r3.(*ssa.FieldAddr); ok && fieldName(f3.X.Type(), f3.Field) == "MTime" {
+								keeps = true
+							}
+						}
+					}
+					k++
+					r.Check(keeps, "T1-defaults-kept", fmt.Sprintf("%s: file info replaced#%d after the defaults keeps the time", c.funcKey(fn), k), c.instrPos(st),
+						"the entry returned by WithFileInfoDefaults gets a new file info that does not set MTime: the entry is packaged with the zero time instead of the configured package mtime")
+				}
+			}
+		})
+	}
+	r.Floor("T1-defaults-kept", n, 2)
+	if n >= 2 {
+		r.Pass("T1-defaults-kept", "files: entries that went through the defaults keep their file info", "-", fmt.Sprintf("%d calls of WithFileInfoDefaults in the planner examined", n))
+	}
+}
+
+// checkEnvTimeOnlyDefault (T1-env-default): SOURCE_DATE_EPOCH and the clock are
+// defaults for an unset mtime. A store of such a value into Info.MTime sits on
+// the true edge of a test that the configured mtime is zero - and of nothing
+// else: any other route lets the environment replace a configured time.
+func checkEnvTimeOnlyDefault(c *Ctx, r *Report) {
+	pa := newProv(c)
+	n := 0
+	for _, fn := range c.ModFuncs {
+		k := 0
+		forEachInstr(fn, func(in ssa.Instruction) {
+			st, ok := in.(*ssa.Store)
+			if !ok {
+				return
+			}
+			p, root := addrPath(st.Addr)
+			if root == nil || p != "MTime" || rootTypeName(root.Type()) != "Info" {
+				return
+			}
+			pv := pa.Of(st.Val)
+			fromEnv := false
+			for _, a := range pv.list() {
+				if strings.Contains(a, "modtime.FromEnv") || a == "call:os.Getenv" || a == "call:time.Now" || a == "call:os.LookupEnv" {
+					fromEnv = true
+				}
+			}
+			if !fromEnv {
+				return
+			}
+			n++
+			k++
+			// the block is entered only from the true edge of <Info.MTime>.IsZero()
+			onlyDefault := false
+			b := st.Block()
+			if len(b.Preds) == 1 {
+				if ifi, isIf := b.Preds[0].Instrs[len(b.Preds[0].Instrs)-1].(*ssa.If); isIf && b.Preds[0].Succs[0] == b {
+					if zc, isCall := ifi.Cond.(*ssa.Call); isCall {
+						if o := calleeObj(zc); o != nil && o.Name() == "IsZero" && len(zc.Call.Args) == 1 && pa.Of(zc.Call.Args[0]).has("Info.MTime") {
+							onlyDefault = true
+						}
+					}
+				}
+			}
+			r.Check(onlyDefault, "T1-env-default", fmt.Sprintf("%s: environment/clock time#%d is stored only where the configured mtime is zero", c.funcKey(fn), k), c.instrPos(st),
+				"the store is not on the true edge of a plain <mtime>.IsZero() test: some path replaces a configured mtime by SOURCE_DATE_EPOCH or the clock, and the bytes then follow the environment")
+		})
+	}
+	r.Floor("T1-env-default", n, 1)
 }
